@@ -36,6 +36,8 @@ TEXT = ("TLC checks the clone/drop/take protocol of SharedFd step by step (singl
         "cancel / key-drop / driver-drop moment on both drivers) for 'produced => delivered or closed'. Every program "
         "and every interleaving of the small models is replayed on the real SharedFd (both builds; the multi-threaded "
         "one through a schedule controller parked at hooks inside fd.rs), on File/TcpStream/UnixStream close() and on "
+        "the real Proactor. The close future is polled by hand with two counting wakers (re-polled with the same and "
+        "with the other one: a future that moves between tasks) and the oracle asks for the waker of its LATEST poll; on "
         "the real Proactor, with the close counter, the closer's wake-ups, the strong count at every hook and the "
         "process's descriptor table compared with the model and the property's predicates evaluated on the real "
         "observation.")
@@ -71,6 +73,9 @@ def _mc_jobs(tier):
         ("SharedFd", "MC_SharedFd_fixed.cfg", None, FIXED),
         # controls: the code before each repair must violate
         ("SharedFd", "MC_SharedFd_unsync_old_silent.cfg", "Live", None),
+        # control: a take() that registers its waker only once strands a close future that is re-polled
+        # with another waker (the model tracks the identity of the waker of the LATEST poll)
+        ("SharedFd", "MC_SharedFd_unsync_register_once.cfg", "Live", None),
         ("SharedFd", "MC_SharedFd_file_old_forgets.cfg", "NoLeakLive", None),
         ("SharedFdProd", "MC_SharedFdProd_old_drvdrop.cfg", "Delivered", None),
     ]
@@ -171,6 +176,7 @@ def run(run, tier, replay):
         p_file = os.path.join(tmp, "file.jsonl")
         p_sync = os.path.join(tmp, "sync.jsonl")
         p_sync2 = os.path.join(tmp, "sync2.jsonl")
+        p_sync3 = os.path.join(tmp, "sync3.jsonl")
         p_prod = os.path.join(tmp, "prod.jsonl")
         with cf.ThreadPoolExecutor(max_workers=4) as pool:
             mc = [pool.submit(_run_mc, j) for j in _mc_jobs(tier)]
@@ -184,6 +190,8 @@ def run(run, tier, replay):
                                     "Gen_SharedFdSync_drops.cfg" if tier == "quick" else "Gen_SharedFdSync_3.cfg", p_sync),
                 "sync2": pool.submit(_gen, "Gen_SharedFdSync",
                                      "Gen_SharedFdSync_t2.cfg" if tier == "quick" else "Gen_SharedFdSync_full.cfg", p_sync2),
+                # the pending close future is polled again with ANOTHER waker (moved to another task)
+                "sync3": pool.submit(_gen, "Gen_SharedFdSync", "Gen_SharedFdSync_mig.cfg", p_sync3),
                 "prod": pool.submit(_gen, "Gen_SharedFdProd",
                                     "Gen_SharedFdProd.cfg" if tier == "quick" else "Gen_SharedFdProd_thorough.cfg", p_prod),
             }
@@ -206,16 +214,23 @@ def run(run, tier, replay):
                 counts[k], g = fut.result()
                 run.note("generated_" + k, counts[k])
         if tier == "thorough":
-            # all interleavings of 3 holders + closer are generated; a seeded sample is replayed
+            # all interleavings of 3 holders + closer and of 2 holders with take() and a migration are
+            # generated; seeded samples are replayed
             p2 = os.path.join(tmp, "sync_s.jsonl")
-            counts["sync_replayed"] = _subset(p_sync, p2, 4000, rnd)
+            counts["sync_replayed"] = _subset(p_sync, p2, 3000, rnd)
             p_sync = p2
-        with open(p_sync, "a") as f, open(p_sync2) as g2:
-            shutil.copyfileobj(g2, f)
+            p2b = os.path.join(tmp, "sync2_s.jsonl")
+            counts["sync_replayed"] += _subset(p_sync2, p2b, 5000, rnd)
+            p_sync2 = p2b
             p3 = os.path.join(tmp, "prod_s.jsonl")
             # every single-shot program, a seeded sample of the (many) multishot programs
             counts["prod_replayed"] = _subset(p_prod, p3, 15000, rnd, keep=lambda l: '"class": "multi"' not in l)
             p_prod = p3
+        # one schedule file: droppers, second take, task migration (the closer re-polls with another waker)
+        with open(p_sync, "a") as f:
+            for extra in (p_sync2, p_sync3):
+                with open(extra) as g2:
+                    shutil.copyfileobj(g2, f)
         run.note("exhaustive_programs", tier == "quick")
         for k in ("sync_replayed", "prod_replayed"):
             if k in counts:
@@ -301,6 +316,26 @@ def run(run, tier, replay):
         nm = sum(p["count"] for p in sneg["problems"] if p["type"] == "mismatch")
         if nm < 50:
             raise vlib.ToolError("negative control a: corrupted expectations accepted (%d/50 noticed)" % nm)
+        # a2. waker identity: exchange the expectation "which waker has been woken" in programs whose closer
+        # re-polled with another waker
+        bad = os.path.join(tmp, "neg_waker.jsonl")
+        k = 0
+        with open(p_unsync) as f, open(bad, "w") as g2:
+            for line in f:
+                if k >= 30:
+                    break
+                o = json.loads(line)
+                hit = [st for st in o["steps"] if st["x"]["c"] == "pending" and st["x"]["wok"][0] != st["x"]["wok"][1]]
+                if hit:
+                    hit[0]["x"]["wok"].reverse()
+                    g2.write(json.dumps(o) + "\n")
+                    k += 1
+        if k < 30:
+            raise vlib.ToolError("negative control a2: only %d programs distinguish the two wakers" % k)
+        sneg, _ = _run_bin("fd_replay", [bad, "ins"])
+        nm = sum(p["count"] for p in sneg["problems"] if p["type"] == "mismatch")
+        if nm < 30:
+            raise vlib.ToolError("negative control a2: exchanged waker identities accepted (%d/30 noticed)" % nm)
         # b. a schedule whose expected strong count is wrong must be noticed by the controller
         bad = os.path.join(tmp, "neg_sync.jsonl")
         with open(p_sync) as f, open(bad, "w") as g2:
@@ -328,7 +363,8 @@ def run(run, tier, replay):
         nm = sum(p["count"] for p in sneg["problems"] if p["type"] == "mismatch")
         if nm < 20:
             raise vlib.ToolError("negative control c: wrong leak predictions accepted (%d/20 noticed)" % nm)
-        run.note("negative_controls", "corrupted close count, strong count and leak prediction are all rejected")
+        run.note("negative_controls", "corrupted close count, exchanged waker identity, strong count and leak "
+                                      "prediction are all rejected")
         run.assumptions += [
             "sequentially consistent interleaving of the hooked atomic steps (no weak-memory reordering)",
             "Drop's strong_count and waits loads are one step",
